@@ -143,6 +143,12 @@ class FullCheck(BaseCheck):
           return simnet.Fault(rng.choice(['error', 'eof'] + (['silence'] if op == 'recv' else [])))
         return None
       net.fault_fn = fault_fn
+    if rng.random() < bias.get('send_stall', 0.15):
+      # peers whose buffers fill up now and then: a write blocks part-way for a while
+      classes.add('send-stall')
+      stall = rng.choice([0.02, 0.2, 1.0])
+      for s_ in w.servers:
+        s_.sim.send_delay = lambda conn: stall * rng.random() if rng.random() < 0.3 else 0.0
     if open_timeout == 0 or first_mode != 'up' or conn_lat > 0.1:
       classes.add('slow-or-async-open')
 
